@@ -24,7 +24,8 @@ use crate::{
     GDResult,
 };
 
-use bzip2_rs::decoder::Decoder;
+use bzip2_rs::DecoderReader;
+use std::io::Read;
 
 use crate::buffer::Utf8Decoder;
 use crate::protocols::valve::Packet;
@@ -65,7 +66,8 @@ impl SplitPacket {
                 };
 
                 let is_compressed = ((id >> 31) & 1u32) == 1u32;
-                let decompressed = match is_compressed {
+                // only the first packet of a compressed response carries the size and the checksum
+                let decompressed = match is_compressed && number == 0 {
                     false => None,
                     true => Some((buffer.read()?, buffer.read()?)),
                 };
@@ -87,17 +89,15 @@ impl SplitPacket {
 
     fn get_payload(&self) -> GDResult<Vec<u8>> {
         if let Some(decompressed) = self.decompressed {
-            let mut decoder = Decoder::new();
-            decoder
-                .write(&self.payload)
-                .map_err(|e| Decompress.context(e))?;
-
             let decompressed_size = decompressed.0 as usize;
 
-            let mut decompressed_payload = vec![0; decompressed_size];
-
-            decoder
-                .read(&mut decompressed_payload)
+            // Decompress at most one byte more than announced (enough to notice a mismatch) and
+            // never more than MAX_DECOMPRESSED_SIZE, whatever the packet claims.
+            let limit = decompressed_size.min(MAX_DECOMPRESSED_SIZE) as u64 + 1;
+            let mut decompressed_payload = Vec::new();
+            DecoderReader::new(self.payload.as_slice())
+                .take(limit)
+                .read_to_end(&mut decompressed_payload)
                 .map_err(|e| Decompress.context(e))?;
 
             if decompressed_payload.len() != decompressed_size
@@ -123,6 +123,9 @@ pub(crate) struct ValveProtocol {
 }
 
 static PACKET_SIZE: usize = 6144;
+
+/// Upper bound on the decompressed size of a (bzip2 compressed) split response.
+const MAX_DECOMPRESSED_SIZE: usize = 4 * 1024 * 1024;
 
 impl ValveProtocol {
     pub fn new(address: &SocketAddr, timeout_settings: Option<TimeoutSettings>) -> GDResult<Self> {
